@@ -246,6 +246,18 @@ def run_shard(spec):
                 if case.outcome[0] == "exc":
                     ename = type(case.outcome[1]).__name__
                     st_ = (case.status or "").lower()
+                    if not st_:
+                        # the exception came from inside the wrapper, before it handed a status back: ask the solver-side object
+                        # that the wrapper holds what the solver had concluded
+                        try:
+                            w_ = getattr(case.machine.pep, "wrapper", None)
+                            if hasattr(w_, "prob") and w_.prob is not None:
+                                st_ = str(w_.prob.status).lower()
+                            elif hasattr(w_, "task") and w_.task is not None:
+                                import mosek as _mk
+                                st_ = str(w_.task.getprosta(_mk.soltype.itr)).lower()
+                        except Exception:
+                            st_ = ""
                     if ename == "SolverError":
                         counters["solver_errors_inconclusive"] = counters.get("solver_errors_inconclusive", 0) + 1
                     elif any(x in st_ for x in ("unbounded", "infeasible", "dual_infeas", "prim_infeas")):
@@ -337,7 +349,8 @@ def run_shard(spec):
     from PEPit.primitive_steps import inexact_gradient_step, inexact_proximal_step
     step_cases = [("inexact_gradient_step.notion", b) for b in ["abs", "Relative", "", None, 1, "absolute "]] + \
                  [("inexact_proximal_step.opt", b) for b in ["PD_gapIV", "pd_gapI", "", None, 3, "PD_gapI "]] + \
-                 [("constraint.sense:" + w, b) for w in ("cvxpy", "mosek") for b in ["geq", "", None, "Equality"]]
+                 [("constraint.sense:" + w, b) for w in ("cvxpy", "mosek") for b in ["geq", "", None, "Equality"]] + \
+                 [("get_block.block_number", b) for b in [-1, -2, 2, 3, -3, 1.5, 100]]
     for j, (what, bad) in enumerate(step_cases):
         if (j + spec.get("shard", 0)) % 2 and "replay" not in spec and spec.get("n", 10) < 100:
             continue
@@ -356,6 +369,11 @@ def run_shard(spec):
                     got = inexact_gradient_step(x0, f, gamma=1., epsilon=.1, notion=bad)
                 elif what.startswith("inexact_proximal_step"):
                     got = inexact_proximal_step(x0, f, 1., opt=bad)
+                elif what.startswith("get_block"):
+                    part = problem.declare_block_partition(d=2)       # valid block numbers: 0 and 1
+                    if j % 2:
+                        part.get_block(x0, 0)                         # already decomposed point
+                    got = part.get_block(x0, bad)
                 else:
                     x1 = x0 - f.gradient(x0)
                     problem.set_performance_metric((x1 - xs) ** 2)
